@@ -66,6 +66,7 @@ func b2mode(wide bool) int {
 func SelectFilesMode(repo string, mode int) ([]string, error) {
 	wide := mode >= 1
 	strobeFile := filepath.Join(repo, "internal", "strobe", "strobe.go")
+	keccakFiles := map[string]bool{filepath.Join(repo, "internal", "strobe", "keccakf.go"): true, filepath.Join(repo, "internal", "strobe", "keccakf_amd64.go"): true}
 	var out []string
 	cacheDir := filepath.Join(repo, "primitives", "ed25519", "extra", "cache")
 	primDir := filepath.Join(repo, "primitives") + string(filepath.Separator)
@@ -83,7 +84,7 @@ func SelectFilesMode(repo string, mode int) ([]string, error) {
 		if !strings.HasSuffix(p, ".go") || strings.HasSuffix(p, "_test.go") {
 			return nil
 		}
-		if filepath.Dir(p) == cacheDir || (wide && strings.HasPrefix(p, primDir)) || (mode >= 2 && p == strobeFile) {
+		if filepath.Dir(p) == cacheDir || (wide && strings.HasPrefix(p, primDir)) || (mode >= 2 && (p == strobeFile || keccakFiles[p])) {
 			out = append(out, p)
 			return nil
 		}
@@ -103,6 +104,14 @@ func SelectFilesMode(repo string, mode int) ([]string, error) {
 	})
 	sort.Strings(out)
 	return out, err
+}
+
+// OnlyFuncs restricts instrumentation of a file (by base name) to the listed
+// functions: the byte-wrapper around the Keccak permutation is interruptible, the 24
+// rounds themselves stay atomic.
+var OnlyFuncs = map[string]map[string]bool{
+	"keccakf.go":       {"keccakF1600Bytes": true},
+	"keccakf_amd64.go": {"keccakF1600Bytes": true},
 }
 
 // File instruments one file; site ids start at *next.
@@ -155,6 +164,9 @@ func File(path string, next *int) (string, []Site, error) {
 		switch x := n.(type) {
 		case *ast.FuncDecl:
 			if x.Body == nil || skipFunc(x) {
+				return false
+			}
+			if only := OnlyFuncs[filepath.Base(path)]; only != nil && !only[x.Name.Name] {
 				return false
 			}
 			curFunc = x.Name.Name
